@@ -35,7 +35,7 @@ func foldOpts() []gotype.FoldOption {
 	return []gotype.FoldOption{sharedFoldOpt}
 }
 
-var sharedFoldOpt = gotype.Folders(gomodel.FoldRegT)
+var sharedFoldOpt = gotype.Folders(gomodel.FoldRegT, gomodel.FoldRDur)
 
 // withSharedOpts decides (from the type alone) whether an instance for a type
 // that does not need the shared option values gets them anyway: half of the
@@ -163,13 +163,14 @@ func (discardVisitor) OnFloat32(float32) error                      { return nil
 func (discardVisitor) OnFloat64(float64) error                      { return nil }
 
 var regTType = reflect.TypeOf(gomodel.RegT{})
+var rDurType = reflect.TypeOf(gomodel.RDur(0))
 
 func usesRegT(t reflect.Type, depth int, seen map[reflect.Type]bool) bool {
 	if depth > 12 || seen[t] {
 		return false
 	}
 	seen[t] = true
-	if t == regTType {
+	if t == regTType || t == rDurType {
 		return true
 	}
 	switch t.Kind() {
@@ -259,6 +260,63 @@ func drawGoCase(t *rapid.T, tcfg gomodel.TypeCfg, vcfg gomodel.ValCfg) *GoCase {
 	}
 	vcfg.DynFolders = tcfg.FoldOnly
 	return &GoCase{Type: *td, Val: gomodel.DrawValue(t, typ, vcfg)}
+}
+
+// enumFoldPoolShapes enumerates every pool type with a custom folder in every
+// position the library distinguishes, with a fixed non-empty value.
+func enumFoldPoolShapes(wrap func(g *GoCase) any) func(emit func(c any) bool) {
+	return func(emit func(c any) bool) {
+		for _, p := range gomodel.Pool {
+			if !p.FoldOnly || p.Family {
+				continue
+			}
+			b := gomodel.TypeDesc{Kind: "pool", Pool: p.Name}
+			pb := gomodel.TypeDesc{Kind: "ptr", Elem: &b}
+			shapes := []gomodel.TypeDesc{
+				b, pb,
+				{Kind: "slice", Elem: &b},
+				{Kind: "array", Len: 2, Elem: &b},
+				{Kind: "map", Elem: &b},
+				{Kind: "slice", Elem: &pb},
+				{Kind: "map", Elem: &pb},
+				{Kind: "struct", Fields: []gomodel.FieldDesc{{Name: "A", Type: gomodel.TypeDesc{Kind: "int"}}, {Name: "F", Type: b}, {Name: "G", Type: gomodel.TypeDesc{Kind: "slice", Elem: &b}}, {Name: "H", Tag: `struct:"h,omitempty"`, Type: pb}}},
+				{Kind: "struct", Fields: []gomodel.FieldDesc{{Name: "A", Type: gomodel.TypeDesc{Kind: "int"}}, {Name: "F", Tag: `struct:",inline"`, Type: b}}},
+				{Kind: "struct", Fields: []gomodel.FieldDesc{{Name: "F", Tag: `struct:",inline"`, Type: pb}, {Name: "Z", Type: gomodel.TypeDesc{Kind: "string"}}}},
+			}
+			for i := range shapes {
+				typ, err := gomodel.Build(&shapes[i])
+				if err != nil {
+					continue
+				}
+				if !emit(wrap(&GoCase{Type: shapes[i], Val: gomodel.SampleValue(typ)})) {
+					return
+				}
+			}
+			// as dynamic value of an interface: top level, slice element, map value, field
+			dyn := &b
+			if p.Name == "FolderPtr" || p.Name == "RegT" || p.Name == "FFlag" || p.Name == "RDur" {
+				dyn = &pb
+			}
+			rt, err := gomodel.Build(dyn)
+			if err != nil {
+				continue
+			}
+			dv := gomodel.SampleValue(rt)
+			iv := gomodel.GoVal{Ptr: &dv, Dyn: dyn}
+			ifc := gomodel.TypeDesc{Kind: "iface"}
+			for _, c := range []GoCase{
+				{Type: ifc, Val: iv},
+				{Type: gomodel.TypeDesc{Kind: "slice", Elem: &ifc}, Val: gomodel.GoVal{Elems: []gomodel.GoVal{iv, iv}}},
+				{Type: gomodel.TypeDesc{Kind: "map", Elem: &ifc}, Val: gomodel.GoVal{Keys: []string{"k"}, Elems: []gomodel.GoVal{iv}}},
+				{Type: gomodel.TypeDesc{Kind: "struct", Fields: []gomodel.FieldDesc{{Name: "A", Type: gomodel.TypeDesc{Kind: "int"}}, {Name: "I", Type: ifc}}}, Val: gomodel.GoVal{Elems: []gomodel.GoVal{{I: 1}, iv}}},
+			} {
+				c := c
+				if !emit(wrap(&c)) {
+					return
+				}
+			}
+		}
+	}
 }
 
 // drawGoHistory draws n cases for one instance; later types share components
